@@ -538,3 +538,12 @@ func init() {
 		c.Has(w, mayBe)
 	})
 }
+
+func init() {
+	// selftest C34/c402ca0544 (the `r.remain -= n` of bodyReader.Read deleted): with the store gone the rules anchored on
+	// it have nothing to examine, so its existence is required here.
+	ExtraClause("C34", "Also: bodyReader.Read decreases the remaining Content-Length by the number of bytes read.")
+	RegisterExtra("C34", func(c *Ctx) {
+		c.Has("(*internal/http3.bodyReader).Read", Stores("internal/http3.bodyReader.remain"))
+	})
+}
